@@ -2,12 +2,18 @@
 package selftest
 
 import (
+	"fmt"
+	"sort"
+
 	"github.com/hashicorp/hcl/v2"
 	"github.com/hashicorp/hcl/v2/hclsyntax"
+	"github.com/hashicorp/hcl/v2/hclwrite"
+	hcljson "github.com/hashicorp/hcl/v2/json"
 	"github.com/zclconf/go-cty/cty"
 	"github.com/zclconf/go-cty/cty/function"
 	"github.com/zclconf/go-cty/cty/function/stdlib"
 
+	"verif/engine/h/seeds"
 	"verif/engine/vf"
 )
 
@@ -106,4 +112,61 @@ func H_Dbg3() {
 	v := cty.StringVal("ab").Mark("m")
 	r2, _ := stdlib.UpperFunc.Call([]cty.Value{v})
 	vf.Observe("r2-marked", r2.IsMarked())
+}
+
+// H_Corpus: translation validation of the interpreter: every seed of every corpus is
+// pushed, concretely, through the main entry points; the observations (token
+// types/ranges, diagnostics, formatter output, evaluated values) are compared with
+// the natively compiled run of the same harness by the check driver.
+func H_Corpus() {
+	var all []seeds.Seed
+	all = append(all, seeds.CorpusConfig...)
+	all = append(all, seeds.ExtraConfig...)
+	all = append(all, seeds.CorpusExpr...)
+	all = append(all, seeds.CorpusTemplate...)
+	all = append(all, seeds.ExtraTemplate...)
+	all = append(all, seeds.CorpusTraversal...)
+	all = append(all, seeds.CorpusJSON...)
+	all = append(all, seeds.ExtraJSON...)
+	si := vf.Concretize(vf.Choice(len(all)))
+	src := []byte(all[si].Text)
+	vf.Observe("seed", all[si].Name)
+	toks, _ := hclsyntax.LexConfig(src, "c.hcl", hcl.InitialPos)
+	digest := ""
+	for _, t := range toks {
+		digest += fmt.Sprintf("%c%d:%d-%d:%d;", rune(t.Type), t.Range.Start.Line, t.Range.Start.Column, t.Range.End.Line, t.Range.End.Column)
+	}
+	vf.Observe("tokens", digest)
+	f, diags := hclsyntax.ParseConfig(src, "c.hcl", hcl.InitialPos)
+	vf.Observe("diags", diags.Error())
+	vf.Observe("format", string(hclwrite.Format(src)))
+	if !diags.HasErrors() {
+		attrs, _ := f.Body.JustAttributes()
+		names := make([]string, 0, len(attrs))
+		for n := range attrs {
+			names = append(names, n)
+		}
+		sort.Strings(names)
+		// (a single variable: hcl's "did you mean" suggestion depends on Go's map order when several names qualify)
+		ctx := &hcl.EvalContext{Variables: map[string]cty.Value{"b": cty.StringVal("B")}, Functions: map[string]function.Function{"upper": stdlib.UpperFunc}}
+		for _, n := range names {
+			v, vd := attrs[n].Expr.Value(ctx)
+			vf.Observe("val:"+n, fmt.Sprintf("%#v / %s", v, vd.Error()))
+		}
+	}
+	e, ediags := hclsyntax.ParseExpression(src, "e.hcl", hcl.InitialPos)
+	vf.Observe("expr-diags", ediags.Error())
+	if !ediags.HasErrors() {
+		v, vd := e.Value(nil)
+		vf.Observe("expr-val", fmt.Sprintf("%#v / %s", v, vd.Error()))
+	}
+	_, tdiags := hclsyntax.ParseTemplate(src, "t.hcl", hcl.InitialPos)
+	vf.Observe("tmpl-diags", tdiags.Error())
+	jf, jdiags := hcljson.Parse(src, "j.json")
+	vf.Observe("json-diags", jdiags.Error())
+	if !jdiags.HasErrors() {
+		attrs, ad := jf.Body.JustAttributes()
+		vf.Observe("json-attrs", fmt.Sprintf("%d / %s", len(attrs), ad.Error()))
+	}
+	vf.Reach("end")
 }
